@@ -6,6 +6,7 @@ import (
 	"hash/fnv"
 	"math/rand"
 	"strings"
+	"sync"
 
 	"verif/harness/internal/smf"
 
@@ -284,7 +285,7 @@ func (d Doc) Abstract() []Rec {
 		if in.Meter != nil {
 			meter = []int{in.Meter.N, in.Meter.D}
 		}
-		out = append(out, Rec{"rest": in.Rest, "deg": chars(in.Deg), "base": chars(in.Base), "sym": in.Sym, "vals": vals,
+		out = append(out, Rec{"rest": in.Rest, "deg": chars(in.Deg), "base": chars(in.Base), "sym": displayOf(in.Sym), "vals": vals,
 			"bpm": in.BPM, "meter": meter, "vel": in.Vel, "key": chars(in.Key),
 			"txt": bytesOf([]byte(in.Txt)), "lic": bytesOf([]byte(in.Lic)), "mrk": bytesOf([]byte(in.Mrk))})
 	}
@@ -324,10 +325,55 @@ func eventsOf(f smf.File) [][]any {
 
 var dynamics = []string{"pp", "p", "mp", "mf", "f", "ff"}
 
+// The long names of the chords whose symbols the statements list.  No statement fixes them ("a chord's long name and its
+// display symbol are interchangeable"), so they are read off the binary under test (`info chord list`); the names of the
+// pinned tree are only the fallback when that listing cannot be had.  The abstract document handed to TLC carries the symbol.
 var longChordNames = []string{"MajorTriad", "MinorTriad", "DiminishedTriad", "AugmentedTriad", "DominantSeventh", "MajorSeventh",
 	"MajorSeventhAlias1", "MinorSeventh", "MinorMajorSeventh", "HalfDiminishedSeventh", "DiminishedSeventh", "AugmentedMajorSeventh",
 	"DominantNinth", "MinorMajorNinth", "MinorNinth", "MajorNinth", "MajorNinthAlias1", "SuspendedFourth", "SeventhSuspendedFourth",
 	"Sixth", "MinorSixth", "AddedNinth", "SuspendSecond"}
+
+var (
+	longToDisplay = map[string]string{}
+	longOnce      sync.Once
+)
+
+func initLongNames(c *Ctx) {
+	longOnce.Do(func() {
+		list, ok := builtinChordList(c)
+		if !ok {
+			return // the fallback list; Piece.tla knows the pinned names
+		}
+		names := []string{}
+		for _, b := range list {
+			if conventional[b.Meta.Display] && b.Name != "" && b.Name != b.Meta.Display && !conventional[b.Name] {
+				longToDisplay[b.Name] = b.Meta.Display
+				names = append(names, b.Name)
+			}
+		}
+		if len(names) > 0 {
+			longChordNames = names
+		}
+	})
+}
+
+// displayOf: the symbol a long name stands for (itself when it is a symbol)
+func displayOf(sym string) string {
+	if d, ok := longToDisplay[sym]; ok {
+		return d
+	}
+	return sym
+}
+
+// longNameOf: a long name of the symbol (the symbol itself if crd lists none)
+func longNameOf(display string) string {
+	for _, n := range longChordNames {
+		if longToDisplay[n] == display {
+			return n
+		}
+	}
+	return display
+}
 
 // GenOpt steers randomDoc.
 type GenOpt struct {
